@@ -56,10 +56,108 @@ theorem large_reserve_witness :
     ∧ (1714285714285714287000000 : Int) - (1714285714285714285714285 + 1) > 1000000 := by
   refine ⟨by rfl, by decide, by decide⟩
 
+/-- equal weights, exact-out: the charge is at least the exact input `A·o/((B−o)(1−fee))` up to what the
+two 18-digit `Quo` roundings can lose, in scaled form (real-number reading:
+`in ≥ exact − (A/2 + A/10¹⁸)/((1−fee)·10¹⁸) − 1/2 − 1/10¹⁸`; the final `Ceil` only helps). -/
+theorem in_ge_exact_scaled (p : SwapPool) (amtOut fee inAmt slip : Int)
+    (hw : p.wIn = p.wOut) (hw0 : p.wOut ≠ 0) (hA : 0 ≤ p.effIn) (ho : 0 ≤ amtOut)
+    (h : calcInGivenOut p amtOut fee = .ok (inAmt, slip)) :
+    2 * P * P * (p.effIn * amtOut * P)
+      ≤ 2 * P * P * inAmt * ((p.effOut - amtOut) * (P - fee))
+        + p.effIn * P * (p.effOut - amtOut) * (P + 2) + (P + 2) * ((p.effOut - amtOut) * (P - fee)) := by
+  obtain ⟨e, _, hfee, hpost⟩ := calcIn_equal p amtOut fee inAmt slip hw hw0 h
+  rw [e]
+  exact inVal_bound _ _ _ _ hA ho hfee hpost
+
+/-- exact-out charges at least the exact input minus ONE base unit, whenever the in-reserve is at most
+10¹⁸ base units and the fee at most 25 %: `(in + 1)·(B − o)·(1 − fee) ≥ A·o`. -/
+theorem in_ge_exact_one_unit (p : SwapPool) (amtOut fee inAmt slip : Int)
+    (hw : p.wIn = p.wOut) (hw0 : p.wOut ≠ 0) (hA : 0 ≤ p.effIn) (hA1 : p.effIn ≤ P) (ho : 0 ≤ amtOut)
+    (hfee4 : 4 * fee ≤ P)
+    (h : calcInGivenOut p amtOut fee = .ok (inAmt, slip)) :
+    p.effIn * amtOut * P ≤ (inAmt + 1) * ((p.effOut - amtOut) * (P - fee)) := by
+  have hb := in_ge_exact_scaled p amtOut fee inAmt slip hw hw0 hA ho h
+  obtain ⟨_, _, _, hpost⟩ := calcIn_equal p amtOut fee inAmt slip hw hw0 h
+  have hP := P_pos
+  have hD : 0 < p.effOut - amtOut := by
+    have : p.effOut * P - amtOut * P = (p.effOut - amtOut) * P := by rw [Int.sub_mul]
+    rw [this] at hpost
+    apply Classical.byContradiction; intro hc
+    have := Int.mul_nonpos_of_nonpos_of_nonneg (show p.effOut - amtOut ≤ 0 by omega) (Int.le_of_lt hP)
+    omega
+  refine in_one_unit_core p.effIn P (P - fee) (p.effOut - amtOut) inAmt _ hP hD ?_ hb
+  rw [P_eq] at hA1 hfee4 ⊢
+  omega
+
+/-- WITNESS (known finding C03-large-reserve-quo-rounding-exact-out): in-reserve 10³⁰, out-reserve 10¹²,
+1:1, fee 0.3 %, exact-out of 1 base unit.  The code charges 1003009027081243732; the exact input is
+above 1003009027082246740, i.e. the trader pays about 10⁶ base units too little (relative 10⁻¹²). -/
+theorem large_reserve_in_witness :
+    calcInGivenOut { balIn := 1000000000000000000000000000000, balOut := 1000000000000, wIn := 1, wOut := 1 }
+        1 3000000000000000 = .ok (1003009027081243732, 0)
+    ∧ ((1003009027081243732 + 1000000) * ((1000000000000 - 1) * (P - 3000000000000000)) : Int)
+        < 1000000000000000000000000000000 * 1 * P := by
+  refine ⟨by rfl, by decide⟩
+
+/-! ### unequal weights: conditional on `PowSpec` (TESTED by clause C03.pow_spec, NOT proved) -/
+
+/-- `PowSpec ref`: on `0 < y ≤ 1`, `0 < w`, the code's `Pow(y, w)` is within 10⁻⁸ of `ref y w`, where `ref`
+stands for the exact power `y^w` (as a raw Dec; real powers are not available core-only, so the
+reference is a parameter).  The error analysis of the Maclaurin / exp∘ln approximations that would
+establish this for `ref = y^w` is NOT proved; the harness tests it against a 420-bit evaluation. -/
+def PowSpec (ref : Int → Int → Int) : Prop :=
+  ∀ y w v, 0 < y → y ≤ P → 0 < w → pow y w = .ok v → v - ref y w ≤ powPrecision ∧ ref y w - v ≤ powPrecision
+
+/-- any weights, exact-in, UNDER `PowSpec`: the payout is at most the weighted-product formula evaluated
+with the exact power of the (18-digit) reserve ratio, plus 10⁻⁸ of the out-reserve:
+`out ≤ B·(1 − ref(y, wIn/wOut)) + B·10⁻⁸`, with `y = A/(A+a')` and the weight ratio as the code rounds them. -/
+theorem out_le_exact_weighted_partial (ref : Int → Int → Int) (hspec : PowSpec ref)
+    (p : SwapPool) (amt fee out slip : Int)
+    (hA : 0 ≤ p.effIn) (hB : 0 ≤ p.effOut) (hamt : 0 ≤ amt) (hfee : fee ≤ P)
+    (hwr : 0 < Dec.quo (p.wIn * P) (p.wOut * P))
+    (h : calcOutGivenIn p amt fee = .ok (out, slip)) :
+    out * P ≤ p.effOut * (P - ref (Dec.quo (p.effIn * P) (p.effIn * P + amt * (P - fee))) (Dec.quo (p.wIn * P) (p.wOut * P)))
+      + p.effOut * powPrecision := by
+  obtain ⟨hout, hpost, pw, hpw, e⟩ := calcOut_general p amt fee out slip h
+  have hP := P_pos
+  have ha' : 0 ≤ amt * (P - fee) := Int.mul_nonneg hamt (by omega)
+  have hAP : 0 ≤ p.effIn * P := Int.mul_nonneg hA (by omega)
+  have hy1 := quo_le_one (p.effIn * P) (p.effIn * P + amt * (P - fee)) hAP (by omega) hpost
+  have hy0 : 0 < Dec.quo (p.effIn * P) (p.effIn * P + amt * (P - fee)) := by
+    -- `Pow` rejects a non-positive base
+    unfold pow powWith at hpw
+    split at hpw
+    · cases hpw
+    · omega
+  obtain ⟨_, hlow⟩ := hspec _ _ pw hy0 hy1 hwr hpw
+  have ho := truncP_of_pos (p.effOut * (P - pw)) (by rw [← e]; exact hout)
+  rw [← e] at ho
+  have hm : p.effOut * (P - pw) ≤ p.effOut * (P - ref (Dec.quo (p.effIn * P) (p.effIn * P + amt * (P - fee))) (Dec.quo (p.wIn * P) (p.wOut * P)) + powPrecision) :=
+    Int.mul_le_mul_of_nonneg_left (by omega) hB
+  rw [Int.mul_add] at hm
+  omega
+
+/-- non-vacuity of `PowSpec`'s use: on the exponent-1 path `Pow(y,1) = y`, so `ref y _ = y` meets the spec there. -/
+example : ∀ y v, 0 < y → y ≤ P → pow y P = .ok v → v - y ≤ powPrecision ∧ y - v ≤ powPrecision := by
+  intro y v hy _ h
+  rw [pow_one] at h
+  split at h
+  · omega
+  · have := chk_ok h; subst this
+    have : (0 : Int) ≤ powPrecision := by decide
+    omega
+
+/-- a concrete unequal-weight swap (1:4) the partial theorem applies to. -/
+example : calcOutGivenIn { balIn := 1000000, balOut := 2000000, wIn := 1, wOut := 4 } 1000 3000000000000000
+    = .ok (498, 622659583959880) := by rfl
+
 /-- non-vacuity: a concrete equal-weight swap (reserves 10⁶ : 2·10⁶, fee 0.3 %, 1000 in) satisfies the
 hypotheses of the theorems above and pays 1992 = ⌊exact⌋. -/
 example : calcOutGivenIn { balIn := 1000000, balOut := 2000000, wIn := 1, wOut := 1 } 1000 3000000000000000
     = .ok (1992, 996006981040120) := by rfl
 example : ((2000000 * (1000 * (P - 3000000000000000)) : Int) / (1000000 * P + 1000 * (P - 3000000000000000))) = 1992 := by decide
+/-- … and the exact-out direction on the same pool: 1000 out costs 502 = ⌈exact⌉ in. -/
+example : calcInGivenOut { balIn := 1000000, balOut := 2000000, wIn := 1, wOut := 1 } 1000 3000000000000000
+    = .ok (502, -500250125062000) := by rfl
 
 end Elys.Amm.C03
